@@ -439,3 +439,229 @@ fn ref_sieve() -> RefSieve {
 c14!(c14_sieve_3, Sieve::<u64, u64, EProps>::new(4, &SieveConfig {}), ref_sieve(), 3);
 c14!(c14_sieve_4, Sieve::<u64, u64, EProps>::new(4, &SieveConfig {}), ref_sieve(), 4);
 c14!(c14_sieve_5, Sieve::<u64, u64, EProps>::new(4, &SieveConfig {}), ref_sieve(), 5);
+
+// ---------------- S3-FIFO (SOSP'23) as documented in s3fifo.rs ----------------
+// Rule: new entries enter `small` unless their hash is remembered by the ghost queue, then `main`. A hit increments the
+// frequency (cap 3). Eviction: while `small` holds more than its share, pop its head: frequency >= threshold -> move to
+// `main` (keeps its frequency), else -> remember the hash in the ghost queue and evict. Otherwise scan `main` from the
+// head: frequency > 0 -> decrement and move to the tail, else evict. If `main` is empty, evict the head of `small`.
+// The ghost queue remembers hashes in FIFO order up to `ghost_cap` total weight: before remembering an entry of weight w
+// it forgets oldest entries while remembered weight + w > ghost_cap.
+pub struct RefS3 {
+    small: Q,
+    main: Q,
+    freq: [u8; N],
+    w: [usize; N],
+    in_main: [bool; N],
+    small_w: usize,
+    small_cap: usize,
+    threshold: u8,
+    ghost: [(u8, usize); 4], // (record id, weight), FIFO; ghost_n entries
+    ghost_n: usize,
+    ghost_w: usize,
+    ghost_cap: usize,
+}
+impl RefS3 {
+    fn ghost_contains(&self, i: u8) -> bool {
+        let mut k = 0;
+        while k < 4 {
+            if k < self.ghost_n && self.ghost[k].0 == i {
+                return true;
+            }
+            k += 1;
+        }
+        false
+    }
+    fn ghost_pop(&mut self) {
+        if self.ghost_n == 0 {
+            return;
+        }
+        self.ghost_w -= self.ghost[0].1;
+        let mut k = 1;
+        while k < 4 {
+            self.ghost[k - 1] = self.ghost[k];
+            k += 1;
+        }
+        self.ghost_n -= 1;
+    }
+    fn ghost_push(&mut self, i: u8, w: usize) {
+        if self.ghost_cap == 0 {
+            return;
+        }
+        while self.ghost_w + w > self.ghost_cap && self.ghost_w > 0 {
+            self.ghost_pop();
+        }
+        assert!(self.ghost_n < 4, "reference ghost bound");
+        self.ghost[self.ghost_n] = (i, w);
+        self.ghost_n += 1;
+        self.ghost_w += w;
+    }
+}
+impl Reference for RefS3 {
+    fn push(&mut self, i: u8, w: usize, _low: bool) {
+        let ix = i as usize;
+        self.w[ix] = w;
+        self.freq[ix] = 0;
+        if self.ghost_contains(i) {
+            self.in_main[ix] = true;
+            self.main.push_back(i);
+        } else {
+            self.in_main[ix] = false;
+            self.small_w += w;
+            self.small.push_back(i);
+        }
+    }
+    fn pop(&mut self) -> Option<u8> {
+        if self.small_w > self.small_cap {
+            let mut guard = 0;
+            while let Some(x) = self.small.pop_front() {
+                let ix = x as usize;
+                self.small_w -= self.w[ix];
+                if self.freq[ix] >= self.threshold {
+                    self.in_main[ix] = true;
+                    self.main.push_back(x);
+                } else {
+                    self.freq[ix] = 0;
+                    self.ghost_push(x, self.w[ix]);
+                    return Some(x);
+                }
+                guard += 1;
+                assert!(guard <= N);
+            }
+        }
+        let mut guard = 0;
+        while let Some(x) = self.main.pop_front() {
+            let ix = x as usize;
+            if self.freq[ix] > 0 {
+                self.freq[ix] -= 1;
+                self.main.push_back(x);
+            } else {
+                self.in_main[ix] = false;
+                return Some(x);
+            }
+            guard += 1;
+            assert!(guard <= 4 * N, "reference s3fifo does not terminate");
+        }
+        let x = self.small.pop_front()?;
+        self.small_w -= self.w[x as usize];
+        self.freq[x as usize] = 0;
+        Some(x)
+    }
+    fn remove(&mut self, i: u8) {
+        let ix = i as usize;
+        if self.in_main[ix] {
+            self.main.remove(i);
+            self.in_main[ix] = false;
+        } else {
+            self.small.remove(i);
+            self.small_w -= self.w[ix];
+        }
+        self.freq[ix] = 0;
+    }
+    fn acquire(&mut self, i: u8) {
+        let ix = i as usize;
+        if self.freq[ix] < 3 {
+            self.freq[ix] += 1;
+        }
+    }
+    fn release(&mut self, _i: u8) {}
+}
+
+mod s3stubs {
+    use std::{
+        borrow::Borrow,
+        collections::HashSet,
+        hash::{BuildHasher, Hash},
+    };
+    pub fn hs_insert<T: Eq + Hash, S: BuildHasher>(_this: &mut HashSet<T, S>, value: T) -> bool {
+        std::mem::forget(value);
+        true
+    }
+    pub fn hs_remove<T: Eq + Hash + Borrow<Q>, S: BuildHasher, Q: ?Sized + Hash + Eq>(_this: &mut HashSet<T, S>, _value: &Q) -> bool {
+        true
+    }
+    pub fn random_state_fixed() -> std::hash::RandomState {
+        // the hasher is never used (HashSet insert / remove are no-ops, contains is answered from the queue)
+        unsafe { std::mem::transmute::<(u64, u64), std::hash::RandomState>((1, 2)) }
+    }
+}
+
+use super::s3fifo::{S3Fifo, S3FifoConfig};
+
+fn ref_s3(small_cap: usize, ghost_cap: usize, threshold: u8) -> RefS3 {
+    RefS3 { small: Q::new(), main: Q::new(), freq: [0; N], w: [0; N], in_main: [false; N], small_w: 0, small_cap, threshold,
+            ghost: [(NONE, 0); 4], ghost_n: 0, ghost_w: 0, ghost_cap }
+}
+
+macro_rules! c14s3 {
+    ($name:ident, $cap:expr, $cfg:expr, $reference:expr, $nops:expr) => {
+        verif_harness! {
+            #[kani::stub(std::collections::HashSet::insert, s3stubs::hs_insert)]
+            #[kani::stub(std::collections::HashSet::remove, s3stubs::hs_remove)]
+            #[kani::stub(std::hash::RandomState::new, s3stubs::random_state_fixed)]
+            #[kani::stub(crate::eviction::s3fifo::GhostQueue::contains, crate::eviction::s3fifo::GhostQueue::verif_contains)]
+            $name, 6, {
+                let real = S3Fifo::<u64, u64, EProps>::new($cap, &$cfg);
+                differential(real, $reference, $nops);
+            }
+        }
+    };
+}
+// capacity 4: small share 0.25 -> 1, ghost share 0.5 -> 2 (so a third ghosted weight makes the queue forget), threshold 1
+const S3_A: S3FifoConfig = S3FifoConfig { small_queue_capacity_ratio: 0.25, ghost_queue_capacity_ratio: 0.5, small_to_main_freq_threshold: 1 };
+c14s3!(c14_s3fifo_g2_4, 4, S3_A, ref_s3(1, 2, 1), 4);
+c14s3!(c14_s3fifo_g2_5, 4, S3_A, ref_s3(1, 2, 1), 5);
+c14s3!(c14_s3fifo_g2_6, 4, S3_A, ref_s3(1, 2, 1), 6);
+// threshold 2, ghost share 1.0 -> 4
+const S3_B: S3FifoConfig = S3FifoConfig { small_queue_capacity_ratio: 0.5, ghost_queue_capacity_ratio: 1.0, small_to_main_freq_threshold: 2 };
+c14s3!(c14_s3fifo_t2_5, 4, S3_B, ref_s3(2, 4, 2), 5);
+
+/// The ghost queue alone, driven directly: symbolic pushes; remembered weight never exceeds the capacity (when every
+/// single weight fits), membership is exactly the most recent window.
+verif_harness! {
+    #[kani::stub(std::collections::HashSet::insert, s3stubs::hs_insert)]
+    #[kani::stub(std::collections::HashSet::remove, s3stubs::hs_remove)]
+    #[kani::stub(std::hash::RandomState::new, s3stubs::random_state_fixed)]
+    #[kani::stub(crate::eviction::s3fifo::GhostQueue::contains, crate::eviction::s3fifo::GhostQueue::verif_contains)]
+    c14_s3fifo_ghost_window, 6, {
+        // reach the ghost queue through the container: small share 0 -> every pop evicts the head of `small` into the ghost
+        let cfg = S3FifoConfig { small_queue_capacity_ratio: 0.01, ghost_queue_capacity_ratio: 0.5, small_to_main_freq_threshold: 1 };
+        let mut real = S3Fifo::<u64, u64, EProps>::new(4, &cfg); // ghost capacity 2
+        let mut w = [0usize; N];
+        let recs: [Arc<Record<S3Fifo<u64, u64, EProps>>>; N] = std::array::from_fn(|i| {
+            let wi: usize = kani::any();
+            kani::assume(wi >= 1 && wi <= 2);
+            w[i] = wi;
+            Arc::new(Record::new(Data { key: i as u64, value: 0, properties: EProps { hint: Hint::Normal }, hash: i as u64, weight: wi }))
+        });
+        let mut i = 0;
+        while i < N {
+            real.push(recs[i].clone());
+            i += 1;
+        }
+        let mut i = 0;
+        while i < N {
+            let p = real.pop().expect("victim");
+            assert!(idx_of(&recs, &p) == i as u8, "small queue is FIFO");
+            std::mem::forget(p);
+            assert!(real.verif_ghost_weight() <= real.verif_ghost_capacity(), "C14: S3-FIFO ghost queue remembers more than its configured share");
+            i += 1;
+        }
+        // window: the last ghosted entry is remembered; older ones only while the total fits
+        assert!(real.verif_ghost_contains(2));
+        assert!(real.verif_ghost_contains(1) == (w[1] + w[2] <= 2), "C14: ghost membership is not the most recent window");
+        assert!(real.verif_ghost_contains(0) == (w[0] + w[1] + w[2] <= 2));
+        kani::cover!(!real.verif_ghost_contains(1), "ghost forgot an entry");
+        kani::cover!(true, "end reached");
+        std::mem::forget(recs);
+        std::mem::forget(real);
+    }
+}
+
+// native replay of counterexamples: bin/check writes the unit test Kani generated (`--concrete-playback=print`) into the
+// included file and runs `cargo kani playback`; the file is empty otherwise.
+#[allow(unused_imports, dead_code)]
+mod playback {
+    use super::*;
+    include!("/verif/harness/playback/foyer-memory/eviction__verif_kani.rs");
+}
